@@ -18,13 +18,17 @@ def callables(module, path=()):
         elif d[0] == 'func' and d[1] is None:
             yield ('func', path, None, d[3], d[4], d[2])
         elif d[0] == 'class' and d[1] is None:
+            this = T(d[3], path)
             for m in d[5]:
-                if m[0] == 'ctor' and m[1] is None:
-                    yield ('ctor', path, d[3], d[3], m[3], None)
-                elif m[0] == 'method' and m[1] is None:
-                    yield ('method', path, d[3], m[3], m[4], m[2])
-                elif m[0] == 'static' and m[1] is None:
-                    yield ('static', path, d[3], m[3], m[4], m[2])
+                if m[0] == 'ctor':
+                    for mc, env in R.envs_of(m[1]):
+                        yield ('ctor', path, d[3], d[3], R.subst_args(m[3], env, this), None)
+                elif m[0] == 'method':
+                    for mc, env in R.envs_of(m[1]):
+                        yield ('method', path, d[3], m[3] + R.inst_suffix(mc), R.subst_args(m[4], env, this), R.subst_ret(m[2], env, this) if not mc else None)
+                elif m[0] == 'static':
+                    for mc, env in R.envs_of(m[1]):
+                        yield ('static', path, d[3], m[3] + R.inst_suffix(mc), R.subst_args(m[4], env, this), R.subst_ret(m[2], env, this) if not mc else None)
 
 
 def ndefaults(args):
@@ -46,17 +50,20 @@ def c06_check(text, files, w, module):
     for idx, e in w.wrapper_map.items():
         ns, cls, role, name, extra = e
         if isinstance(extra, (parser.Method, parser.StaticMethod, parser.Constructor)):
-            key = (getattr(cls, 'name', None), 'ctor' if isinstance(extra, parser.Constructor) else
+            key = (ns + getattr(cls, 'name', ''), 'ctor' if isinstance(extra, parser.Constructor) else
                    ('static:' if isinstance(extra, parser.StaticMethod) else '') + extra.name)
             by_member.setdefault(key, []).append((idx, name, extra))
         elif isinstance(cls, parser.GlobalFunction):
-            by_member.setdefault((None, cls.name), []).append((idx, name, cls))
+            by_member.setdefault((None, ''.join(cls.parent.full_namespaces()) + '.' + cls.name), []).append((idx, name, cls))
     groups = {}
     for c in callables(module):
         kind, path, cname, name, args, ret = c
         if name in ('serialize', 'serializable', 'pickle') and kind == 'method':
             continue
-        groups.setdefault((cname, 'ctor' if kind == 'ctor' else ('static:' if kind == 'static' else '') + name), []).append(c)
+        if kind == 'func':
+            groups.setdefault((None, ''.join(path) + '.' + name), []).append(c)
+        else:
+            groups.setdefault((''.join(path) + cname, 'ctor' if kind == 'ctor' else ('static:' if kind == 'static' else '') + name), []).append(c)
     for key, cs in groups.items():
         routines = by_member.get(key, [])
         want = []
@@ -109,7 +116,14 @@ def c06_check(text, files, w, module):
             # the call
             callee = ('new ' if kind == 'ctor' else '')
             cm = re.search(r'(?:new [\w:<>, ]+?|obj->\w+|[\w:]+::\w+|\b\w+)\((.*)\)\)?;', _last_call(body, kind, name, cname))
+            if kind in ('method', 'static') and ret is None:
+                continue        # member-level template: callee spelling carries template arguments (checked on the pybind side)
             call_args = _last_args(body, kind, name, cname)
+            if call_args is None and kind in ('method', 'static'):
+                import re as _re
+                mm = _re.search(r'(obj->|::)(\w+)<[^;]*>\(', body)
+                if mm:
+                    call_args = _last_args(body.replace(mm.group(0), mm.group(1) + mm.group(2) + '('), kind, mm.group(2), cname)
             if call_args is None:
                 bad.append(('call-not-found', where))
                 continue
